@@ -45,7 +45,7 @@ func (c *Ctx) timerPlaceOfValue(v ssa.Value) string {
 }
 
 func runC16(c *Ctx) {
-	c.Rule("C16.O1", "E4,E1", "AfterFunc only on the nil edge of its cell and stored there; Reset on the non-nil edge; Stop followed by clearing the cell; timer fields guarded by Conn.mux; their addresses flow only to setDeadline", 20)
+	c.Rule("C16.O1", "E4,E1", "AfterFunc only on the nil edge of its cell and stored there; Reset on the non-nil edge; Stop followed by clearing the cell; timer fields guarded by Conn.mux; their addresses flow only to setDeadline", 36)
 	c.Rule("C16.O2", "E4", "durations are time.Until(t) of the caller's t; creation/reset on the !t.IsZero() edge, stop/clear on the zero edge", 6)
 	c.Rule("C16.O3", "E5,E4", "read timer -> errReadTimeout, write timer -> errWriteTimeout, dial timer -> ErrDialTimeout; callbacks only call closeWithError", 5)
 	c.Rule("C16.O4", "E4", "closeWithError stops and clears both timers in the critical section that sets closed", 1)
